@@ -526,7 +526,9 @@ impl NameGen {
         let mut name = if src.chance(cfg.p_odd_name, 16) {
             // arbitrary short strings over letters and the characters that get sanitised, so that
             // runs of separators, leading / trailing separators and separator-only names occur
-            const ALPHA: [char; 9] = ['a', 'b', ' ', '-', '/', '_', 'c', '"', '\\'];
+            const ALPHA: [char; 12] = [
+                'a', 'b', ' ', '-', '/', '_', 'c', '"', '\\', '\u{4e2d}', '\u{42f}', '\u{e9}',
+            ];
             let len = 1 + src.pick(5);
             let mut n = String::new();
             for _ in 0..len {
